@@ -29,6 +29,9 @@ RULE = (
     "non-trivial = text form contains a backslash escape, or >=1 compression pointer was "
     "emitted/followed, or a length limit is within 2 of its bound; distinct by SHA-1 of the case"
 )
+RULE += (
+    " Rounds 8-10 added: names whose label tail spells the origin's wire form (pseudo-suffix), boundary twins (ab.c / a.bc) in one compression table, relativize/choose_relativity values against a label-list reference."
+)
 ASSUMPTIONS = [
     "compression is case-insensitive by design (RFC 4343 4.1): a name decoded through a "
     "pointer is required to equal the original as a DNS name and to be byte-identical to the "
